@@ -100,7 +100,8 @@ def spelling(st, kind, n, quoted, sf):
         u = cat("http://x.fr/a", h, " b?k= ", h, "#f ", h, "x")
         v = cat("http://x.fr/a", h, "%20b?k=%20", h, "#f%20", h, "x")
     elif kind == "outer-whitespace":
-        st.assume(z_and([C.str_pred_set("isspace").cond(c) for c in he]), "whitespace")
+        # whitespace and control characters, mixed: both are cleaned away at the edges, in whatever order they come
+        st.assume(z_and([_WS_CTRL.cond(c) for c in he]), "whitespace / control characters")
         u = cat("http://x.fr/a?k=v")
         v = cat(h, "http://x.fr/a?k=v", h)
     elif kind == "control":
